@@ -346,8 +346,15 @@ def install(eng):
         if name == "wrapping_sub":
             return Int(a.e - b.e, 64, False)
         if name == "saturating_add":
-            return Int(z3.If(z3.BVAddNoOverflow(a.e, b.e, False), a.e + b.e, z3.BitVecVal(2 ** 64 - 1, 64)), 64, False)
+            return Int(z3.If(z3.ULT(a.e + b.e, a.e), z3.BitVecVal(2 ** 64 - 1, 64), a.e + b.e), 64, False)     # unsigned overflow <=> the wrapped sum is below an operand (form that narrow() can rebuild)
         return Int(z3.If(z3.UGE(a.e, b.e), a.e - b.e, z3.BitVecVal(0, 64)), 64, False)
+
+    @on(r"(<usize as (core::cmp::|std::cmp::)?Ord>|(^|::)cmp|(^|::)usize)::(max|min)$")
+    def _int_minmax(call):
+        a, b = call.argv[0], call.argv[1]
+        if call.norm.endswith("max"):
+            return Int(z3.If(z3.UGE(a.e, b.e), a.e, b.e), 64, False)
+        return Int(z3.If(z3.ULE(a.e, b.e), a.e, b.e), 64, False)
 
     @on(r"Atomic(Usize)?::new$")
     def _at_new(call):
